@@ -77,6 +77,9 @@ def norm_lens(t, memo=None):
     def f(n):
         if n[0] == 'len':
             return seq_len(n[1])
+        if n[0] == 'op' and n[1] in ('imin', 'imax') and len(n[2]) == 2:
+            a, b = n[2]
+            return phi(op('le', a, b), a, b) if n[1] == 'imin' else phi(op('ge', a, b), a, b)
         return n
     return map_term(t, f, memo)
 
@@ -373,6 +376,11 @@ class Cube:
                 a = map_term(l, lambda n: p[2] if n is p or n == p else n)
                 b = map_term(l, lambda n: p[3] if n is p or n == p else n)
                 self.ors.append([('and', [nnf(p[1], True), ('lit', a, pol)]), ('and', [nnf(p[1], False), ('lit', b, pol)])])
+                return
+            eff = l[1] if pol else {'lt': 'ge', 'le': 'gt', 'gt': 'le', 'ge': 'lt', 'eq': 'ne', 'ne': 'eq'}[l[1]]
+            if eff == 'ne':
+                # a != b  ==  a < b  or  a > b
+                self.ors.append([('lit', op('lt', l[2][0], l[2][1]), True), ('lit', op('gt', l[2][0], l[2][1]), True)])
                 return
             cs = cmp_constraints(l, pol, ctx)
             for c, k0 in cs:
